@@ -411,6 +411,8 @@ def delta_bound(pmax, c, b, t, has_bias):
     u = Fraction(1, 2 ** t)
     A = abs(pmax) * abs(c)
     B = abs(b) if has_bias else Fraction(0)
+    if not has_bias and is_pow2(abs(c)):
+        return Fraction(0)            # scaling an exactly converted pattern by a power of two, and back, is exact (F-fin: no underflow)
     if has_bias:
         e_x = u * (2 * A + u * A + B)
         e_1 = e_x * (1 + u) + u * A
@@ -575,7 +577,8 @@ def check_fields(prog, res, prop="C08", floor=309):
                    sample={"field": fid, "template": {k: str(v) for k, v in rnd.items()}} if fid == "df166_8" else None)
         if not trivial or rnd is not None:
             d = delta_bound(pmax, c, b, t, has_bias)
-            margin = Fraction(1, 2) - u * (pmax + 1)
+            # |quotient + 1/2| < pmax + 1 <= B (B the next power of two): the sum lies in a binade below B, where half an ulp is u * B / 2
+            margin = Fraction(1, 2) - u * Fraction(1 << int(pmax).bit_length(), 2)
             okd = d < margin and rnd is not None
             if okd and d > worst:
                 worst, worst_id = d, fid
@@ -588,9 +591,12 @@ def check_fields(prog, res, prop="C08", floor=309):
             if has_bias:
                 e_sub = u * (xmax + abs(b))
                 eq = (e_sub / abs(c)) * (1 + u) + u * (pmax + 1)
+            elif trivial:
+                eq = Fraction(0)      # dividing a float by a power of two is exact
             else:
                 eq = u * (pmax + 1)
-            margin = Fraction(1, 2) - u * (pmax + 1)
+            # |quotient + 1/2| < pmax + 1 <= B (B the next power of two): the sum lies in a binade below B, where half an ulp is u * B / 2
+            margin = Fraction(1, 2) - u * Fraction(1 << int(pmax).bit_length(), 2)
             res.ob("O-err2", "%s | for any real input in range the quantised value is one of the two neighbouring grid points" % fid,
                    eq < margin and rnd is not None, "quotient error bound %.3e, margin %.6f" % (float(eq), float(margin)), fe.loc)
     res.extra["float_fields"] = nfloat
@@ -627,6 +633,9 @@ def check_handwritten(prog, res, prop="C08"):
                 if g and g[0] == "I16" and is_const(a[2]) and const_val(a[2]) == W:
                     if X.op == "cast" and X.args[0] == "FloatToInt":
                         found = (b, X.args[1])
+                    elif X.op == "phi" and ea.phi_operands(X) and all(v.op == "cast" and v.args[0] == "FloatToInt" for pb, v in ea.phi_operands(X)):
+                        # the cast written inside each branch of the sign test: cast(phi(a, b)) == phi(cast(a), cast(b))
+                        found = (b, mk("phicast", X))
                     else:
                         why = "the value written is not the float-to-int cast itself: %s" % show(X, ea.names)
         ok = False
@@ -641,10 +650,15 @@ def check_handwritten(prog, res, prop="C08"):
                     return False
             return x.op in ("memval", "field")
 
+        def phi_ops(ph):
+            if ph.op == "phicast":
+                return [(pb, v.args[1]) for pb, v in ea.phi_operands(ph.args[0])]
+            return ea.phi_operands(ph)
+
         def sign_select(ph, on):
             """phi of (on +- k): returns {cmp: signed offset} or None"""
             sel = {}
-            for pb, v in ea.phi_operands(ph):
+            for pb, v in phi_ops(ph):
                 if v.op == "bin" and v.args[0] in ("Add", "Sub") and is_lit(v.args[2]) and v.args[1] is on:
                     off = fconst(v.args[2]) * (1 if v.args[0] == "Add" else -1)
                     facts = [fact_of_guard(gd) for gd in ea.guards(pb) if gd[4] == "switch"]
@@ -662,9 +676,9 @@ def check_handwritten(prog, res, prop="C08"):
             return sel
         if found:
             b, z = found
-            if z.op == "phi":
+            if z.op in ("phi", "phicast"):
                 # template A
-                ons = {v.args[1] for pb, v in ea.phi_operands(z) if v.op == "bin"}
+                ons = {v.args[1] for pb, v in phi_ops(z) if v.op == "bin"}
                 if len(ons) == 1:
                     y = next(iter(ons))
                     sel = sign_select(z, y)
